@@ -75,6 +75,8 @@ def replay_trigonal(data):
     ref = Crystal.load("/repo/src/chmpy/tests/test_files/r3c_example.cif")
     d0 = ref.density
     h_atoms = ref.unit_cell_atoms()
+    # the crystal was already in use (atoms, molecules and density asked for) before it is re-expressed
+    c.unit_cell_atoms(), c.unit_cell_molecules(), c.symmetry_unique_molecules(), c.density
     c.choose_trigonal_lattice("R")
     if c.space_group.choice != "R":
         bad.append("setting not switched")
@@ -98,8 +100,13 @@ def replay_trigonal(data):
     c.choose_trigonal_lattice("R")
     p = c.as_P1()
     fnew = np.asarray(p.asymmetric_unit.positions, float)
-    if not _coincide(fnew, r_atoms["frac_pos"], tol=1e-5):
-        bad.append("as_P1 of the rhombohedral description moves the atoms")
+    if len(fnew) != len(r_atoms["frac_pos"]) or not _coincide(fnew, r_atoms["frac_pos"], tol=1e-5):
+        bad.append("as_P1 of the rhombohedral description moves the atoms or changes their number (%d vs %d)" % (len(fnew), len(r_atoms["frac_pos"])))
+    if abs(p.density - d0) > 1e-6 * d0:
+        bad.append("density of the P1 form of the rhombohedral description differs (%.6f vs %.6f)" % (p.density, d0))
+    sc = c.as_P1_supercell((2, 1, 1))
+    if len(sc.asymmetric_unit) != 2 * len(r_atoms["frac_pos"]):
+        bad.append("2x1x1 supercell of the rhombohedral description has %d atoms (expected %d)" % (len(sc.asymmetric_unit), 2 * len(r_atoms["frac_pos"])))
     return bool(bad), bad[:4]
 
 
@@ -386,5 +393,12 @@ def part_trigonal(ctx):
     res = ctx.query_many(tasks)
     if any(r.verdict == "cex" for r in res):
         bad.append("tabulated operations of the two settings are not related by the basis change")
+    # the symbolic lemma builds every crystal fresh; a crystal already in use (memoised atoms, molecules, density) that is re-expressed and
+    # then expanded: ground instance on the real code
+    gr, gdet = replay_trigonal({})
+    ctx.record("trigonal: a crystal already asked for its atoms, molecules and density, switched H -> R -> H -> R and expanded to P1 / a supercell (ground instance, real code)",
+               "holds" if not gr else "counterexample", nontrivial=True, method="ground instances")
+    if gr:
+        bad.append(gdet[0])
     if bad:
         ctx.violation("trig:switch", "hexagonal <-> rhombohedral re-expression does not preserve the structure: %s" % bad[0], {}, replay_trigonal)
